@@ -68,8 +68,19 @@ class Treeifier:
     def _terminal(self, e, idx):
         """e is (possibly restricted / differentiated) terminal, idx the fixed multi-index."""
         r, nd = "", 0
+        idx = list(idx)
         while True:
-            if isinstance(e, uc.PositiveRestricted):
+            if isinstance(e, uc.Indexed):
+                # indexing inside a restriction / derivative: (f[i])('+'), grad(f[i])[j] -> f's indices first
+                base, mi = e.ufl_operands
+                inner = []
+                for i in mi.indices():
+                    if not isinstance(i, uc.FixedIndex):
+                        raise OutOfModel("free index left after expand_indices")
+                    inner.append(int(i))
+                idx = inner + idx
+                e = base
+            elif isinstance(e, uc.PositiveRestricted):
                 r, e = "+", e.ufl_operands[0]
             elif isinstance(e, uc.NegativeRestricted):
                 r, e = "-", e.ufl_operands[0]
@@ -169,6 +180,9 @@ class Treeifier:
                     raise OutOfModel("free index left after expand_indices")
                 idx.append(int(i))
             return self._terminal(base, idx)
+        if isinstance(e, uc.Restricted) and not isinstance(
+                e.ufl_operands[0], (uc.Indexed, uc.Grad, uc.Restricted)) and not e.ufl_operands[0]._ufl_is_terminal_:
+            raise OutOfModel("restriction of a compound expression (should have been propagated by UFL)")
         if isinstance(e, (uc.Restricted, uc.Grad)) or e._ufl_is_terminal_:
             return self._terminal(e, [])
         raise OutOfModel(f"operator {type(e).__name__} is outside the model")
